@@ -91,9 +91,17 @@ def generate(rng, index, tier):
                                                         'BSC_close_nocancel' if False else 'BSC_sys_close']), ctx)
             elif r < 0.6:
                 target = rng.pick([t for t in tids if t != tid] or tids)
-                ops.append(worlds.op_newthread(rng, target, rng.pick([pids[target], 61000 + rng.randrange(5)]), rng.ident(2, 8)))
+                ops.append(worlds.op_newthread(rng, target, rng.pick([pids[target], 61000 + rng.randrange(5)]), rng.ident(2, 8) if rng.chance(0.92) else ''))
+            elif r < 0.66:
+                ops.append(worlds.op_exec(rng, rng.pick(list(pids.values())), rng.ident(2, 8) if rng.chance(0.92) else ''))
             elif r < 0.7:
-                ops.append(worlds.op_exec(rng, rng.pick(list(pids.values())), rng.ident(2, 8)))
+                # the two kinds of announcement crossed on one thread: both data records first, then both name strings
+                target = rng.pick([t for t in tids if t != tid] or tids)
+                a_ = worlds.op_newthread(rng, target, rng.pick([pids[target], 61000 + rng.randrange(5)]), rng.ident(2, 8))
+                b_ = worlds.op_exec(rng, rng.pick(list(pids.values())), rng.ident(2, 8))
+                order = rng.pick([[a_['ops'][0], b_['ops'][0], a_['ops'][1], b_['ops'][1]], [b_['ops'][0], a_['ops'][0], b_['ops'][1], a_['ops'][1]],
+                                  [a_['ops'][0], b_['ops'][0], b_['ops'][1], a_['ops'][1]]])
+                ops.append({'k': 'seq', 'ops': order})
             elif r < 0.8:
                 ops.append({'k': 'one', 'name': 'TRACE_DATA_THREAD_TERMINATE_PID', 'q': 0, 'a': [61000 + rng.randrange(5), rng.word(), 0, 0]})
             elif r < 0.9:
